@@ -334,6 +334,8 @@ func runC13(c *Check, a *Analysis) {
 		}
 	}
 	ruleDefaults(c, a, "R-NORMALISE", "MaxConnsPerHost", "MaxIdleConnsPerHost")
+	ruleNormaliseOrder(c, a, "R-NORMALISE")
+	ruleReplaceSlot(c, a, "R-REPLACE-SLOT")
 	c.Ob("R-NORMALISE", "once#idle limit clamped to connection limit", token.NoPos, clampSeen, ifs(!clampSeen, "MaxIdleConnsPerHost is never clamped to MaxConnsPerHost: the idle queue alone can exceed the connection limit"))
 
 	// ---- dead ⇒ closed
@@ -550,6 +552,8 @@ func runC14(c *Check, a *Analysis) {
 
 	// ---- R-ERRDIAL
 	ruleDialResult(c, a, "R-DIAL-RESULT")
+	ruleReplaceSlot(c, a, "R-REPLACE-SLOT")
+	ruleFreshLookup(c, a, "R-FRESH-LOOKUP")
 	c.Rule("R-ERRDIAL", "every non-nil error returned by newPersistConn, and by getConn for an empty address, is the ErrDial value (getConn otherwise forwards newPersistConn's error)", 3)
 	eachInstr(np, func(in ssa.Instruction) {
 		r, ok := in.(*ssa.Return)
@@ -648,6 +652,7 @@ func runC15(c *Check, a *Analysis) {
 	ruleDefaults(c, a, "R-RETIRE-TIMING", "KeepAlive", "IdleConnTimeout")
 	c.Rule("R-CLOSE-ALL", "Transport.Close (past its once/running guards) ranges over conns and idleConns closing every element, replaces both maps and closes t.done on every path; run exits on <-t.done; the counted loops over pool containers start at element 0 and the drain of an idle queue is not skipped when it is non-empty", 6)
 	ruleDrainLoops(c, a, "R-CLOSE-ALL")
+	ruleShrinkingBound(c, a, "R-CLOSE-ALL")
 	cl := p.Fn("(*Transport).Close")
 	if cl == nil {
 		c.Undecided("R-CLOSE-ALL", "(*Transport).Close not found")
